@@ -546,7 +546,10 @@ func (p *connectedPlayer) getVirtualHostname() string {
 	// 3. Convert to lowercase for consistent matching
 	virtualHostStr := p.virtualHost.String()
 	cleanedHost := lite.ClearVirtualHost(virtualHostStr)
-	hostname := netutil.HostStr(cleanedHost)
+	// The handshake address carries the port ("play.example.com.:25565"), so a
+	// trailing root dot (sent by clients that resolved an SRV record) is only
+	// exposed once the port has been split off.
+	hostname := strings.Trim(netutil.HostStr(cleanedHost), ".")
 
 	return strings.ToLower(hostname)
 }
